@@ -958,6 +958,79 @@ def corr_io(ctx, drv):
             ctx.disagree({'io': r['seed']}, d[0], d[1], 'entities of the instance: names / outputs')
 
 
+# --- func_instance_parms
+
+PARM_VALUES = ['$color', '$color color255', '$n integer 5', '$text string hello world', '$Text string  two  spaces', '$x ', '$x  ',
+               'plain string def', '$v badtype def', '$v badtype a b', '', '$onlytype float', '$t target_destination @glob door',
+               '$é string ünï', '$a string $b c']
+
+
+def run_param(value, key='param01'):
+    im = impl()
+    t = im['VMF']()
+    t.create_ent('func_instance_parms', origin='0 0 0', **{key: value})
+    f = im['I'].InstanceFile(t)
+    return {k: (p.name, p.type.value, p.default) for k, p in f.params.items()}, len(t.by_class['func_instance_parms'])
+
+
+def check_param(value, got, left):
+    """Statement: `name type default`: the parameter is registered under its casefolded name with the declared type
+    (string when the type is unknown) and the default = everything after the type, spaces included."""
+    VT = impl()['ValueTypes']
+    bad = []
+    parts = value.split(' ')
+    name = parts[0]
+    if left != 0:
+        bad.append(('parms', 'the func_instance_parms entity was left in the instance file'))
+    if list(got) != [name.casefold()]:
+        return bad + [('parms', f'parameter value {value!r}: registered {got}, expected one entry under {name.casefold()!r}')]
+    gname, gtype, gdef = got[name.casefold()]
+    wtype = 'string'
+    if len(parts) >= 2:
+        try:
+            wtype = VT(parts[1]).value
+        except ValueError:
+            pass
+    wdef = value[len(parts[0]) + 1 + len(parts[1]) + 1:] if len(parts) >= 3 else ''
+    if (gname, gtype, gdef) != (name, wtype, wdef):
+        bad.append(('parms', f'parameter value {value!r}: parsed as name {gname!r} type {gtype!r} default {gdef!r}, expected {name!r} {wtype!r} {wdef!r}'))
+    return bad
+
+
+def corr_params(ctx, drv):
+    VT = impl()['ValueTypes']
+    rng = ctx.rng
+    values = list(PARM_VALUES)
+    for _ in range(ctx.budget(150, 1500)):
+        values.append(' '.join(rng.choice(['$v', 'Name', 'string', 'integer', 'color255', 'x', '', 'a$b', 'target_destination'])
+                               for _ in range(rng.randrange(1, 6))))
+    reqs, meta = [], []
+    for v in values:
+        got, left = run_param(v)
+        for key, what in check_param(v, got, left):
+            _wit(ctx, key, what, {'kind': 'parm', 'value': v})
+        ctx.case({'parm': v}, nontrivial=' ' in v)
+        ctx.count('func_instance_parms values')
+        reqs.append({'op': 'param', 'value': codes(v), 'maxsplit': 2})
+        meta.append((v, got))
+    # keys that are not parameters are ignored (as coded: the key must start with "param")
+    for key in ('parm1', 'Param1', 'other', 'replace01'):
+        got, _ = run_param('$v string d', key)
+        ctx.count('func_instance_parms key %s -> %d params' % (key, len(got)))
+    for (v, got), m in zip(meta, drv.batch(reqs)):
+        ctx.traces_vs_impl += 1
+        name = uncodes(m['name'])
+        typ = 'string'
+        if m['type'] is not None:
+            try:
+                typ = VT(uncodes(m['type'])).value
+            except ValueError:
+                pass
+        want = {name.casefold(): (name, typ, uncodes(m['default']))}
+        if got != want:
+            ctx.disagree({'parm': v}, got, want, 'func_instance_parms parsing')
+
+
 # --- collapse_all
 
 class _TooMany(Exception):
@@ -1190,6 +1263,7 @@ def correspond(ctx, drivers):
     corr_nested(ctx, drv)
     corr_from_angle(ctx, drv)
     corr_io(ctx, drv)
+    corr_params(ctx, drv)
     # histories
     n_hist = ctx.budget(400, 4000)
     reqs, meta = [], []
@@ -1376,6 +1450,11 @@ def replay(ctx, payload):
         r = run_collapse_all(impl(), inp['graph'])
         bad = check_collapse_all(inp['graph'], r)
         print(r, bad)
+        return not bad
+    if kind == 'parm':
+        got, left = run_param(inp['value'])
+        bad = check_param(inp['value'], got, left)
+        print(got, bad)
         return not bad
     if kind == 'io':
         bad = check_io(run_io(inp['seed']))
